@@ -140,6 +140,10 @@ def gen_subject(ch, sid, tier, chosen):
             outs.append("rtimg")
         if ch.chance(1, 6, "plink"):
             outs.append("plink")
+        if ch.chance(1, 6, "irobj"):
+            outs.append(ch.pick(["irobj", "irjson"], "irkind"))
+        if ch.chance(1, 10, "ar"):
+            outs.append("ar")
         lay = ch.weighted([3, 2, 1], "layout")
         extra = None
         if lay == 2 and base_of(t) in ("x86_64", "arm", "riscv", "xtensa"):
